@@ -66,5 +66,6 @@ def run(ctx):
         ctx.guard("C14", "strict-end", lambda: parser.end_classification(ctx, prog))
         ctx.guard("C14", "strict-out", lambda: parser.driver_outcomes(ctx, prog))
         ctx.guard("C14", "summaries", lambda: summary.check(ctx, prog, '_unchecked$|internals::intrinsics::', floor=2))
+        ctx.guard("C14", "generic consts", lambda: summary.check_consts(ctx, prog, floor=13))
         ctx.guard("C14", "path summaries", lambda: summary.check_paths(ctx, prog, '_unchecked$|internals::intrinsics::', floor=0))
     return ctx.finish(EXPL, ["from_utf8 accepts exactly what from_utf8_unchecked assumes when the input is ASCII", "effect reduction treats calls without &mut arguments as pure unless their result is kept"])
